@@ -16,6 +16,8 @@ def encV : V → String
   | .t none => "t:-"
   | .t (some l) => "t:" ++ ",".intercalate (l.map toString)
   | .d kv => "d:(" ++ ",".intercalate ((kv.map fun (k, v) => encChars k ++ "=" ++ encChars v).toArray.qsort (· < ·)).toList ++ ")"
+  | .nil => "t:-"
+  | .l items => "l:[" ++ "|".intercalate (items.map fun kv => "(" ++ ",".intercalate ((kv.map fun (k, v) => encChars k ++ "=" ++ (match v with | some x => encChars x | none => "~")).toArray.qsort (· < ·)).toList ++ ")") ++ "]"
   | .det kv => "d:(" ++ ",".intercalate ((kv.map fun (k, v) => encChars k ++ "=" ++ (match v with | some x => encChars x | none => "~")).toArray.qsort (· < ·)).toList ++ ")"
 
 def encD (d : D) : String :=
